@@ -4,6 +4,6 @@ From Coq Require Import Extraction ExtrOcamlBasic ZArith.
 From KV.Base Require Import Word.
 From KV.Kcp Require Import Kcp.
 From KV.Sess Require Import Sess.
-Extraction "sess_model.ml" sess_new write_full write_step read_full read_step
+Extraction "sess_model.ml" sess_new write_full write_step read_full read_step close_full
   kcp_new send recv peeksize input flush update set_mtu set_nodelay set_wndsize set_stream
   waitsnd set_seq set_queues u32.
